@@ -148,4 +148,38 @@ theorem NormContract.pos_iff {dnorm : List 𝕜 → ℝ} (hN : NormContract dnor
       have : sqNorm x = 0 := by rw [← hs]; ring
       exact absurd ((sqNorm_eq_zero_iff x).1 this z hz) hne
 
+/-- `A v_j - alpha_j v_j - beta_{j-1} v_{j-1}` from the returned data -/
+noncomputable def lanczosResidual (Afun : List 𝕜 → List 𝕜) (alpha beta : List ℝ) (V : Mat 𝕜) (j : Nat) : List 𝕜 :=
+  vsub V.m (Afun (matCol V j))
+    (if 0 < j then
+      vadd V.m (vscale V.m (RealLike.ofReal (alpha.getD j 0)) (matCol V j))
+        (vscale V.m (RealLike.ofReal (beta.getD (j - 1) 0)) (matCol V (j - 1)))
+    else vscale V.m (RealLike.ofReal (alpha.getD j 0)) (matCol V j))
+
+/-- the residual computed from the outputs is the residual of the final state -/
+theorem lanczosResidual_eq {n : Nat} {Afun : List 𝕜 → List 𝕜} {st : LState 𝕜 ℝ} {k : Nat} (hf : LFin n Afun st k) :
+    lanczosResidual Afun st.alpha st.beta (colsMat n st.V) (k - 1) = lzRes Afun n st (k - 1) := by
+  have hk1 := hf.kpos
+  have hcol : ∀ c, c < k → matCol (colsMat n st.V) c = st.vec c :=
+    fun c hc' => matCol_colsMat st.V c (hf.len c hc')
+  unfold lanczosResidual lzRes
+  rw [hcol (k - 1) (by omega)]
+  by_cases hj : 0 < k - 1
+  · rw [if_pos hj, if_pos hj, hcol (k - 1 - 1) (by omega)]; rfl
+  · rw [if_neg hj, if_neg hj]; rfl
+
+/-- a vector of zero norm has only zero entries -/
+theorem NormContract.vget_eq_zero {dnorm : List 𝕜 → ℝ} (hN : NormContract dnorm) {x : List 𝕜} (h : dnorm x = 0)
+    (i : Nat) : vget x i = 0 := by
+  have hs := hN.sq x
+  rw [h] at hs
+  have h0 : sqNorm x = 0 := by rw [← hs]; ring
+  have hall := (sqNorm_eq_zero_iff x).1 h0
+  unfold vget
+  rw [List.getD_eq_getElem?_getD]
+  by_cases hi : i < x.length
+  · rw [List.getElem?_eq_getElem hi, Option.getD_some]
+    exact hall _ (List.getElem_mem hi)
+  · rw [List.getElem?_eq_none (by omega), Option.getD_none]
+
 end Ptn.Krylov
